@@ -814,6 +814,8 @@ def t_shared_buffer_across(rng, n_sub=2):
       arr = g.w((4, 6), 0.5)
       buf = b.new_buffer(arr)
     w = g.const('tied_w', arr, buffer=buf)
+    if i and rng.random() < 0.5:
+      x = g.tanh(x)            # the consuming operator sits at another position than in subgraph 0
     y = g.fc(x, 4, w=w, bias=bool(rng.random() < 0.5))
     if rng.random() < 0.5:
       y = g.tanh(y)
@@ -871,7 +873,7 @@ TEMPLATES = [t_output_also_consumed, t_producer_zero_float_out, t_repeated_opera
              t_chain, t_weight_chain, t_duplicate_output, t_passthrough]
 
 
-def model_for_case(rng, multi_sub_p=0.0, template_p=0.15, shuffle_p=0.15, **kw):
+def model_for_case(rng, multi_sub_p=0.0, template_p=0.15, shuffle_p=0.15, alias_p=0.25, **kw):
   """Default mixture used by the graph-level properties."""
   r = rng.random()
   if r < template_p:
@@ -883,7 +885,8 @@ def model_for_case(rng, multi_sub_p=0.0, template_p=0.15, shuffle_p=0.15, **kw):
     spec = rand_model(rng, n_sub=n_sub, **kw)
   if shuffle_p and rng.random() < shuffle_p:
     spec = shuffle_indices(spec, rng, dangling=bool(rng.random() < 0.3),
-                           shape_sigs=[None, None, 'static', 'dynamic'][int(rng.integers(4))], opcodes=bool(rng.random() < 0.3))
+                           shape_sigs=[None, None, 'static', 'dynamic'][int(rng.integers(4))], opcodes=bool(rng.random() < 0.3),
+                           alias_signature=bool(rng.random() < alias_p))
   return spec
 
 
@@ -1058,7 +1061,8 @@ def t_fanout(rng, k=None):
 
 # ---------------------------------------------------------------- semantics-preserving surgery (index hygiene)
 
-def shuffle_indices(spec, rng, tensors=True, buffers=True, signatures=True, dangling=False, shape_sigs=None, opcodes=False):
+def shuffle_indices(spec, rng, tensors=True, buffers=True, signatures=True, dangling=False, shape_sigs=None, opcodes=False,
+                    alias_signature=False):
   """Returns a spec describing the SAME model with tensor indices permuted inside every subgraph, data buffers
   permuted (buffer 0 stays the empty sentinel), the signature list reordered and optionally an unused constant
   tensor added.  Nothing about the computation changes; only code that confuses an index with an identity notices."""
@@ -1114,6 +1118,24 @@ def shuffle_indices(spec, rng, tensors=True, buffers=True, signatures=True, dang
         if shape_sigs == 'dynamic' and len(sig) >= 2:
           sig[0] = -1
         t.shapeSignature = sig
+  if alias_signature and m.signatureDefs:
+    # a second SignatureDef for an existing subgraph (another key and other argument names for the same tensors)
+    k = int(rng.integers(len(m.signatureDefs)))
+    src_sig = m.signatureDefs[k]
+    al = S.SignatureDefT()
+    al.signatureKey = src_sig.signatureKey + b'_alias'
+    al.subgraphIndex = src_sig.subgraphIndex
+    al.inputs, al.outputs = [], []
+    for lst, dst, pre in ((src_sig.inputs, al.inputs, b'alias_'), (src_sig.outputs, al.outputs, b'alias_')):
+      for tm in lst:
+        t2 = S.TensorMapT()
+        t2.name = pre + tm.name
+        t2.tensorIndex = tm.tensorIndex
+        dst.append(t2)
+    m.signatureDefs.append(al)
+    alias_of = (src_sig.signatureKey.decode(), al.signatureKey.decode())
+  else:
+    alias_of = None
   if dangling:
     sg = m.subgraphs[int(rng.integers(len(m.subgraphs)))]
     b = S.BufferT()
@@ -1126,12 +1148,16 @@ def shuffle_indices(spec, rng, tensors=True, buffers=True, signatures=True, dang
     t.buffer = len(m.buffers) - 1
     sg.tensors.append(t)
   sigs = list(spec.signatures)
+  if alias_of:
+    base = next(s_ for s_ in sigs if s_['key'] == alias_of[0])
+    sigs.append(dict(base, key=alias_of[1], inputs=[('alias_' + a, sh, kd, vc) for a, sh, kd, vc in base['inputs']]))
   if signatures and m.signatureDefs and len(m.signatureDefs) > 1:
     order = [int(p) for p in rng.permutation(len(m.signatureDefs))]
     m.signatureDefs = [m.signatureDefs[i] for i in order]
     by_key = {s['key']: s for s in sigs}
     sigs = [by_key[s.signatureKey.decode()] for s in m.signatureDefs]
-  return ModelSpec(bytes(flatbuffer_utils.convert_object_to_bytearray(m)), sigs, spec.classes | {'shuffled_indices'},
+  return ModelSpec(bytes(flatbuffer_utils.convert_object_to_bytearray(m)), sigs,
+                   spec.classes | {'shuffled_indices'} | ({'alias_signature'} if alias_of else set()),
                    spec.label + '+shuffled')
 
 
